@@ -2,7 +2,7 @@
 import pyvaporation as pv
 
 from gen import Case, emit_family
-from objs import V, all_vars, sym_component
+from objs import V, all_vars, sym_component, fresh_str
 
 IMPORTS = ['Model.Component', 'Model.Permeance']
 
@@ -18,7 +18,7 @@ def perm_text(em, p):
 
 
 def sym_permeance(leaf, value, units):
-    p = pv.Permeance(value=1.0, units=units)
+    p = pv.Permeance(value=1.0, units=fresh_str(units))
     p.value = V(leaf, value)
     return p, '(Build_Permeance N %s %s)' % (leaf, UNITS[units])
 
